@@ -560,19 +560,26 @@ fn c06_round_trip_two_sided_whole_u8() {
 }
 
 // ------------------------------------------------------------------------------------------------
-// Per-leg obligations (compose to the round-trip clause, and are the "neither leg lowers the value
-// of one market token for the other LPs" clause themselves)
+// Per-leg obligations
 //
 // In a market without open interest, borrowing state and position-impact pool the pool value is
 // `L * pL + S * pS` at the maximised / minimised prices (that `pool_value` is this composition is
 // what the `c06_pool_value_*` harnesses decide), so the legs are stated with that closed form.
 //
-//   deposit leg  D1: minted * PVmax(m0) <= supply0 * (value_in_at_min_prices + funded_positive_impact)
-//                D2: PVmin(m1) <= PVmax(m0) + value_in_at_min_prices + funded_positive_impact
-//   withdraw leg W1: value_paid_at_max_prices * supply1 <= PVmin(m1) * burned
+// Each leg harness compares the real action with an EXACT replica of the amounts (same division
+// structure, which the SAT solver can match; a bare inequality over five nested divisions did not
+// finish in 90 min) and with exact token bookkeeping. The property clauses follow arithmetically:
 //
-// D1 + D2 + W1 and the conversion lemma (`c06_conversion_round_trip_*`: floor(S*v/P) tokens
-// redeemed against (P+v, S+minted) are worth <= v) give: withdrawn value <= deposited value + funded.
+//   deposit leg:  minted = floor(S0*x/PV0) + floor(S0*y/PV0), x = net amount * min price,
+//                 y = positive impact amount * max price of the other token (paid out of its impact pool)
+//        D1  =>   minted * PV0max <= S0 * (x + y) <= S0 * (deposited value at min prices + funded impact)
+//                 i.e. (PV0 + added value) / (S0 + minted) >= PV0 / S0: no dilution of the other LPs
+//        D2       PVmin(after) <= PV0max + deposited value + funded impact  (bookkeeping, prices min <= max)
+//   withdraw leg: gross_long = floor(floor(mtv*LV/TV)/pLmax), gross_short likewise, mtv = floor(PV1min*a/S1)
+//        W1  =>   (gross_long*pLmax + gross_short*pSmax) <= mtv <= PV1min * a / S1: the burned share, never more
+//
+// D1 + D2 + W1 and the conversion lemma (`c06_conversion_round_trip_*`) give: withdrawn value at max
+// prices <= deposited value at min prices + impact funded by the impact pool.
 // ------------------------------------------------------------------------------------------------
 
 fn pv_closed(m: &VMarket<u8, 1>, p: &Prices<u8>, maximize: bool) -> i32 {
@@ -582,6 +589,31 @@ fn pv_closed(m: &VMarket<u8, 1>, p: &Prices<u8>, maximize: bool) -> i32 {
         (p.long_token_price.min, p.short_token_price.min)
     };
     m.primary.long as i32 * pl as i32 + m.primary.short as i32 * ps as i32
+}
+
+/// floor(x*n/d) computed like the narrow `MulDiv` instantiation (16-bit product, 16-bit division).
+fn md(x: u8, n: u8, d: u8) -> u16 {
+    x as u16 * n as u16 / d as u16
+}
+
+/// Replica of `usd_to_market_token_amount` for representable inputs (`None` = not applicable).
+fn conv(usd: i32, pool: i32, supply: u8, divisor: u8) -> Option<i32> {
+    if usd > 255 || pool > 255 || usd < 0 || pool < 0 || divisor == 0 {
+        return None;
+    }
+    if supply == 0 && pool == 0 {
+        Some((usd as u8 / divisor) as i32)
+    } else if supply == 0 {
+        if pool + usd > 255 {
+            None
+        } else {
+            Some(((pool + usd) as u8 / divisor) as i32)
+        }
+    } else if pool == 0 {
+        None
+    } else {
+        Some(md(supply, usd as u8, pool as u8) as i32)
+    }
 }
 
 fn deposit_leg(long_side: bool) {
@@ -598,43 +630,40 @@ fn deposit_leg(long_side: bool) {
     let (pin, pop) = if long_side { (p.long_token_price, p.short_token_price) } else { (p.short_token_price, p.long_token_price) };
     let fees = if long_side { d.fee_long } else { d.fee_short };
     let side = |x: &crate::vmarket::VPool<u8>, l: bool| -> i32 { if l { x.long as i32 } else { x.short as i32 } };
+    // impact pools: positive impact is paid out of the OTHER token's pool, negative impact into the deposited token's pool
+    let pia = side(&m0.swap_impact, !long_side) - side(&m.swap_impact, !long_side);
+    let neg = side(&m.swap_impact, long_side) - side(&m0.swap_impact, long_side);
+    assert!(pia >= 0 && neg >= 0 && (pia == 0 || neg == 0), "C06: deposit: impact pools moved in the wrong direction");
+    assert!((d.impact > 0) || pia == 0, "C06: deposit: impact pool paid out without positive impact");
+    assert!((d.impact < 0) || neg == 0, "C06: deposit: impact pool charged without negative impact");
     // bookkeeping, exact
-    let hold = |x: &VMarket<u8, 1>, l: bool| -> i32 { side(&x.primary, l) + side(&x.swap_impact, l) + side(&x.fee, l) };
-    assert!(hold(&m, long_side) == hold(&m0, long_side) + a as i32, "C06: deposit: holdings of the deposited token did not grow by exactly the amount");
-    assert!(hold(&m, !long_side) == hold(&m0, !long_side), "C06: deposit: holdings of the other token changed");
+    let net = a as i32 - fees.0 as i32 - fees.1 as i32 - neg;
+    assert!(net >= 0);
+    assert!(side(&m.primary, long_side) == side(&m0.primary, long_side) + net + fees.1 as i32, "C06: deposit: liquidity pool (deposited token) != + net amount + pool fee");
+    assert!(side(&m.primary, !long_side) == side(&m0.primary, !long_side) + pia, "C06: deposit: liquidity pool (other token) != + positive impact amount");
     assert!(side(&m.fee, long_side) == side(&m0.fee, long_side) + fees.0 as i32 && side(&m.fee, !long_side) == side(&m0.fee, !long_side), "C06: deposit: claimable fee booking");
     assert!(m.total_supply as i32 == m0.total_supply as i32 + d.minted as i32, "C06: deposit: supply did not grow by the minted amount");
     assert!(m.same_other_pools(&{ let mut x = m0; x.total_supply = m.total_supply; x }) & m.same_params(&m0), "C06: deposit touched an unrelated pool or parameter");
-    // positive impact funded by the impact pool of the opposite token (paid at its max price)
-    let d_opp = side(&m0.swap_impact, !long_side) - side(&m.swap_impact, !long_side);
-    let d_same = side(&m0.swap_impact, long_side) - side(&m.swap_impact, long_side);
-    assert!(d_opp >= 0 && d_same <= 0, "C06: deposit: impact pools moved in the wrong direction");
-    assert!(d_opp == 0 || d_same == 0);
-    let funded = d_opp * pop.max as i32;
-    let v_in = a as i32 * pin.min as i32;
-    let (pv0, s0) = (pv_closed(&m0, &p, true), m0.total_supply as i32);
-    if s0 > 0 {
-        // D1: the depositor's share is bought at no less than the current value per token
-        assert!(d.minted as i32 * pv0 <= s0 * (v_in + funded), "C06: deposit mints more market tokens than the deposited value buys at the maximised pool value (dilutes the other LPs)");
-    } else {
-        // first deposit: one market token per `divisor` of net value at the min price
-        let net = a as i32 - fees.0 as i32 - fees.1 as i32 + d_same; // d_same <= 0: negative impact paid into the pool
-        let div = m0.usd_to_amount_divisor as i32;
-        assert!(div > 0 && d.minted as i32 * div <= net * pin.min as i32 && (d.minted as i32 + 1) * div > net * pin.min as i32, "C06: first deposit into an empty pool is not priced at one USD (divisor) per market token");
-        assert!(d_opp == 0, "C06: positive impact paid on a first deposit");
+    // minted amount, exact: input valued at the MIN price, pool valued MAXimised, each part rounded down
+    let pv0 = pv_closed(&m0, &p, true);
+    let (s0, div) = (m0.total_supply, m0.usd_to_amount_divisor);
+    let want_in = conv(net * pin.min as i32, pv0, s0, div);
+    let want_pos = if d.impact > 0 && s0 != 0 { conv(pia * pop.max as i32, pv0, s0, div) } else { Some(0) };
+    assert!(want_in.is_some() && want_pos.is_some(), "C06: deposit succeeded although the mint amount is not computable");
+    assert!(d.minted as i32 == want_in.unwrap() + want_pos.unwrap(), "C06: minted != floor(supply * net value at min price / maximised pool value) + floor(supply * positive impact value / maximised pool value) (first deposit: floor(value / divisor))");
+    if s0 == 0 {
+        assert!(pia == 0, "C06: positive impact paid on a first deposit");
     }
-    // D2: the minimised pool value afterwards is covered by the maximised one before plus what came in
-    assert!(pv_closed(&m, &p, false) <= pv0 + v_in + funded, "C06: pool value after the deposit exceeds pool value before + deposited value + funded impact");
     kani::cover!(s0 > 0 && d.minted > 1 && fees.0 > 0, "deposit with fees into a live pool");
-    kani::cover!(s0 > 0 && d.minted > 0 && d_opp > 0, "deposit with funded positive impact");
-    kani::cover!(s0 > 0 && d.minted > 0 && d_same < 0, "deposit with negative impact");
+    kani::cover!(s0 > 0 && d.minted > 0 && pia > 0, "deposit with funded positive impact");
+    kani::cover!(s0 > 0 && d.minted > 0 && neg > 0, "deposit with negative impact");
     kani::cover!(s0 == 0 && d.minted > 0, "first deposit");
 }
 
 //@ prop=C06 tier=thorough kind=hold
 //@ enc=Deposit::try_new, Deposit::execute, Deposit::price_impact, Deposit::execute_deposit, Deposit::charge_fees, LiquidityMarketExt::pool_value, LiquidityMarketExt::validate_pool_value_for_deposit, BaseMarketExt::validate_max_pnl, BaseMarketExt::validate_pool_amount, BaseMarketMutExt::apply_delta, SwapMarketExt::swap_impact_value, SwapMarketMutExt::apply_swap_impact_value_with_cap, utils::usd_to_market_token_amount, FeeParams::apply_fees
 //@ bound=T=u8 DECIMALS=1 (UNIT 10): one LONG-token Deposit::execute: liquidity pool, swap impact pool, supply (supply > 0 or liquidity empty), divisor, amount, all six prices, swap fee / receiver factors, swap impact factors (exponent 1.0) symbolic; no open interest, no borrowing state, no position impact pool, limits at their maximum
-//@ timeout=5400 mem=36
+//@ timeout=7200 mem=58
 #[kani::proof]
 #[kani::unwind(1)]
 fn c06_deposit_leg_long_whole_u8() {
@@ -644,7 +673,7 @@ fn c06_deposit_leg_long_whole_u8() {
 //@ prop=C06 tier=thorough kind=hold
 //@ enc=Deposit::try_new, Deposit::execute, Deposit::price_impact, Deposit::execute_deposit, Deposit::charge_fees, LiquidityMarketExt::pool_value, LiquidityMarketExt::validate_pool_value_for_deposit, BaseMarketExt::validate_max_pnl, BaseMarketExt::validate_pool_amount, BaseMarketMutExt::apply_delta, SwapMarketExt::swap_impact_value, SwapMarketMutExt::apply_swap_impact_value_with_cap, utils::usd_to_market_token_amount, FeeParams::apply_fees
 //@ bound=T=u8 DECIMALS=1 (UNIT 10): one SHORT-token Deposit::execute, same symbolic state as the long-token harness
-//@ timeout=5400 mem=36
+//@ timeout=7200 mem=58
 #[kani::proof]
 #[kani::unwind(1)]
 fn c06_deposit_leg_short_whole_u8() {
@@ -672,23 +701,23 @@ fn c06_withdraw_leg_whole_u8() {
         kani::cover!(true, "withdrawal rejected");
         return;
     };
-    let (plx, psx) = (p.long_token_price.max as i32, p.short_token_price.max as i32);
+    let (plx, psx) = (p.long_token_price.max, p.short_token_price.max);
     // bookkeeping, exact: what leaves the liquidity pool is output + receiver fee; the pool share of the fee stays
     assert!(m.primary.long as i32 + w.long_out as i32 + w.fee_long.0 as i32 == m1.primary.long as i32, "C06: withdraw: liquidity pool (long) delta");
     assert!(m.primary.short as i32 + w.short_out as i32 + w.fee_short.0 as i32 == m1.primary.short as i32, "C06: withdraw: liquidity pool (short) delta");
     assert!(m.fee.long as i32 == m1.fee.long as i32 + w.fee_long.0 as i32 && m.fee.short as i32 == m1.fee.short as i32 + w.fee_short.0 as i32, "C06: withdraw: claimable fee booking");
     assert!(m.total_supply as i32 + a as i32 == m1.total_supply as i32, "C06: withdraw: supply did not shrink by the burned amount");
     assert!(m.swap_impact.same(&m1.swap_impact) & m.same_other_pools(&{ let mut x = m1; x.total_supply = m.total_supply; x }) & m.same_params(&m1), "C06: withdrawal touched an unrelated pool or parameter");
-    // W1: value leaving the LPs' pool (outputs and receiver fees, at max prices) <= burned share of the minimised pool value
-    let paid = (w.long_out as i32 + w.fee_long.0 as i32) * plx + (w.short_out as i32 + w.fee_short.0 as i32) * psx;
-    let (pv1, s1) = (pv_closed(&m1, &p, false), m1.total_supply as i32);
-    assert!(paid * s1 <= pv1 * a as i32, "C06: withdrawal pays more than the burned share of the minimised pool value (lowers the value per market token of the remaining LPs)");
-    // exact amounts before fees
-    let mtv = pv1 * a as i32 / s1;
-    let (lv, sv) = (m1.primary.long as i32 * plx, m1.primary.short as i32 * psx);
-    let gross_long = w.long_out as i32 + w.fee_long.0 as i32 + w.fee_long.1 as i32;
-    let gross_short = w.short_out as i32 + w.fee_short.0 as i32 + w.fee_short.1 as i32;
-    assert!(gross_long == (mtv * lv / (lv + sv)) / plx && gross_short == (mtv * sv / (lv + sv)) / psx, "C06: withdrawal amounts differ from floor(floor(mtv * side_value / total_value) / max price)");
+    // amounts before fees, exact: pool valued MINimised, split by the liquidity values at MAX prices, paid at MAX prices, every step rounded down
+    let pv1 = pv_closed(&m1, &p, false);
+    assert!(pv1 > 0 && pv1 <= 127 && m1.total_supply > 0, "C06: withdrawal succeeded with an empty / unrepresentable pool value or without supply");
+    let mtv = md(pv1 as u8, a, m1.total_supply);
+    let (lv, sv) = (m1.primary.long as u16 * plx as u16, m1.primary.short as u16 * psx as u16);
+    assert!(mtv <= 255 && lv + sv <= 255 && lv + sv > 0);
+    let gross_long = md(mtv as u8, lv as u8, (lv + sv) as u8) as u8 / plx;
+    let gross_short = md(mtv as u8, sv as u8, (lv + sv) as u8) as u8 / psx;
+    assert!(w.long_out as i32 + w.fee_long.0 as i32 + w.fee_long.1 as i32 == gross_long as i32, "C06: long output + fees != floor(floor(mtv * long_value / total_value) / max long price)");
+    assert!(w.short_out as i32 + w.fee_short.0 as i32 + w.fee_short.1 as i32 == gross_short as i32, "C06: short output + fees != floor(floor(mtv * short_value / total_value) / max short price)");
     kani::cover!(w.long_out > 0 && w.short_out > 0 && w.fee_long.0 > 0, "two-token withdrawal with fees");
     kani::cover!(m.total_supply == 0 && w.long_out > 0, "withdraw everything");
 }
